@@ -79,9 +79,9 @@ Definition rt_quo (x y : val) : res val :=
 
 Definition rt_rem (x y : val) : res val :=
   match kind_of x, kind_of y with
-  | KInt a, KInt b | KFloat a, KInt b | KFloat a, KFloat b =>
-    if Z.eqb b 0 then Panic else mknum (Z.rem a b)
-  | _, _ => Ok nil_str                               (* including int % float: no such case in the source *)
+  | KInt a, KInt b | KInt a, KFloat b | KFloat a, KInt b | KFloat a, KFloat b =>
+    if Z.eqb b 0 then Panic else mknum (Z.rem a b)   (* int % float: the case added by the repair F-C01-g *)
+  | _, _ => Ok nil_str
   end.
 
 Definition rt_incdec (d : Z) (x : val) : res val :=
